@@ -34,6 +34,9 @@ Proved here for all designs, states and events:
   changes the state by exactly its active assignments, the last one winning per bit; every other bit of every
   signal — also the undriven bits of a partially driven signal, and signals of other domains — keeps its value.
 
+* `sync_phase_writes` — for a whole event (any number of coinciding clock edges) in a design with one driver per bit:
+  the synchronous phase changes the state by exactly the active assignments of the processes whose clock has its
+  active edge, all read in the same pre-commit state;
 * `edge_reset` — at an active edge with the domain's reset asserted, every driven bit of every resettable signal
   the process drives takes its initial value, bit for bit; reset-less signals take the assigned values as without
   reset; undriven bits keep theirs.
@@ -231,6 +234,96 @@ theorem edge_writes (D : Design) (cur cur' : Env) (hok : EnvOk D.ctx cur') (p : 
   rw [hs]
   exact sync_process_effect D.ctx cur' hok p.body acc hC hA htg hown
 
+/-- does this process run its statements at the event (active edge of its domain's clock)? -/
+def fires (D : Design) (cur cur' : Env) (p : Proc) : Bool :=
+  match p.dom with
+  | some d => (D.doms.getD d default).clkFired cur cur'
+  | none => false
+
+/-- bit `b` of signal `i` is a bit this process commits -/
+def drivesBit (D : Design) (p : Proc) (i b : Nat) : Bool :=
+  ibit ((stmtMask D.ctx p.body (List.replicate D.ctx.length 0)).get i) b
+
+/-- **The synchronous phase of a whole event.** In a design where no two processes commit the same bit (one driver per
+bit: C06), at an event in which no reset is asserted or rises, the synchronous phase changes the state by exactly the
+active assignments of the processes whose clock has its active edge — each read in the same pre-commit state `cur'` —
+whatever the number of domains whose edges coincide; every other bit keeps its value. -/
+theorem sync_phase_writes (D : Design) (cur cur' : Env) (hok : EnvOk D.ctx cur') (hC : EnvN D.ctx cur')
+    (htg : ∀ p ∈ D.procs, ∀ e ∈ stmtTargets p.body, e.twf D.ctx = true ∧ e.noAlias D.ctx cur')
+    (hdis : D.procs.Pairwise fun p q => ∀ i b, ¬ (drivesBit D p i b = true ∧ drivesBit D q i b = true))
+    (hnr : ∀ p ∈ D.procs, ∀ d, p.dom = some d →
+      (D.doms.getD d default).rstFired cur cur' = false ∧
+      ∀ r, (D.doms.getD d default).rst = some r → (pyAnd 1 (cur'.val r) != 0) = false) :
+    syncPhase D cur cur' =
+      D.procs.foldl (fun acc p =>
+        if fires D cur cur' p then applyWrites D.ctx cur' (stmtWrites D.ctx cur' p.body) acc else acc) cur' := by
+  unfold syncPhase
+  -- generalised over the processes still to run and the state reached so far
+  suffices h : ∀ (ps : List Proc) (acc : Env), (∀ p ∈ ps, p ∈ D.procs) →
+      (ps.Pairwise fun p q => ∀ i b, ¬ (drivesBit D p i b = true ∧ drivesBit D q i b = true)) →
+      EnvN D.ctx acc →
+      (∀ p ∈ ps, ∀ i b, i < D.ctx.length → b < (D.ctx.shape i).width → drivesBit D p i b = true →
+        bitAt acc i b = bitAt cur' i b) →
+      ps.foldl (fun acc p => procAtEvent D cur cur' p acc) acc =
+        ps.foldl (fun acc p =>
+          if fires D cur cur' p then applyWrites D.ctx cur' (stmtWrites D.ctx cur' p.body) acc else acc) acc by
+    exact h D.procs cur' (fun _ hp => hp) hdis hC (fun _ _ _ _ _ _ _ => rfl)
+  intro ps
+  induction ps with
+  | nil => intro acc _ _ _ _; rfl
+  | cons p ps ih =>
+    intro acc hin hpw hA hinv
+    simp only [List.foldl_cons]
+    have hp := hin p (List.mem_cons_self ..)
+    have hrest : ∀ q ∈ ps, q ∈ D.procs := fun q hq => hin q (List.mem_cons_of_mem _ hq)
+    rw [List.pairwise_cons] at hpw
+    cases hd : p.dom with
+    | none =>
+      have e1 : procAtEvent D cur cur' p acc = acc := by unfold procAtEvent; simp [hd]
+      have e2 : fires D cur cur' p = false := by unfold fires; simp [hd]
+      rw [e1, e2]
+      simp only [Bool.false_eq_true, if_false]
+      exact ih acc hrest hpw.2 hA (fun q hq => hinv q (List.mem_cons_of_mem _ hq))
+    | some d =>
+      obtain ⟨hrf, hnr'⟩ := hnr p hp d hd
+      cases hclk : (D.doms.getD d default).clkFired cur cur' with
+      | false =>
+        have e1 : procAtEvent D cur cur' p acc = acc := by
+          unfold procAtEvent; simp only [hd, hclk, hrf, Bool.false_eq_true, if_false]
+        have e2 : fires D cur cur' p = false := by unfold fires; simp only [hd, hclk]
+        rw [e1, e2]
+        simp only [Bool.false_eq_true, if_false]
+        exact ih acc hrest hpw.2 hA (fun q hq => hinv q (List.mem_cons_of_mem _ hq))
+      | true =>
+        have e2 : fires D cur cur' p = true := by unfold fires; simp only [hd, hclk]
+        have hown := hinv p (List.mem_cons_self ..)
+        have e1 := edge_writes D cur cur' hok p d hd hclk hrf hnr' acc hC hA (htg p hp) hown
+        rw [e1, e2]
+        simp only [if_true]
+        -- the new state: of the design's shapes, and unchanged outside this process's bits
+        obtain ⟨hN, hbits⟩ := process_bits D.ctx cur' hok p.body cur' acc hC hA (htg p hp)
+        have hs : syncNext D.ctx D.inits D.resetLess none p.body cur' = execRtl D.ctx cur' p.body cur' := rfl
+        rw [sync_process_effect D.ctx cur' hok p.body acc hC hA (htg p hp) hown] at hN hbits
+        apply ih _ hrest hpw.2 hN
+        intro q hq i b hi hb hqb
+        rw [hbits i b hi hb]
+        have hnot : drivesBit D p i b = false := by
+          cases hpb : drivesBit D p i b with
+          | false => rfl
+          | true => exact absurd ⟨hpb, hqb⟩ (hpw.1 q hq i b)
+        have hwn : wbit D.ctx cur' (stmtWrites D.ctx cur' p.body) i b = none := by
+          cases hw : wbit D.ctx cur' (stmtWrites D.ctx cur' p.body) i b with
+          | none => rfl
+          | some x =>
+            have := wbit_masked D.ctx cur' p.body (fun e he => (htg p hp e he).1) (List.replicate D.ctx.length 0)
+              (by simp) i b _ (stmtWrites_targets D.ctx cur' p.body) x hw
+            unfold drivesBit at hnot
+            rw [this] at hnot; cases hnot
+        rw [hwn]
+        unfold drivesBit at hnot
+        simp only [hnot, Bool.false_eq_true, if_false]
+        exact hinv q (List.mem_cons_of_mem _ hq) i b hi hb hqb
+
 /-- At an active edge with the domain's reset asserted: the driven (masked) bits of a resettable signal the process
 drives take the initial value; anything else is as at an edge without reset. -/
 theorem edge_reset (ctx : Ctx) (cur : Env) (hok : EnvOk ctx cur) (inits : Env) (hI : EnvN ctx inits) (rl : List Bool)
@@ -289,5 +382,18 @@ example : execRtl exBase.ctx [0, 1, 7, 0] (resetInserter exBase 0 (.sig 3) (rese
 example : execRtl exBase.ctx [0, 0, 6, 0] (resetInserter exBase 0 (.sig 3) (resetInserter exBase 0 (.sig 1) exPart)).body
     [0, 0, 6, 0] = [0, 0, 7, 0] := by decide     -- neither control is 1: the assignment only
 example : resetOnlyInto exBase.ctx exBase.inits exBase.resetLess exPart.body [0, 0, 2, 0] = [0, 0, 1, 0] := by decide
+
+/-- two processes of two domains driving different signals; both clocks rise in one event: `sync_phase_writes` applies
+(one driver per bit by `decide`) and the phase is the two counters' assignments -/
+def exTwo : Design :=
+  { ctx := [⟨1, false⟩, ⟨1, false⟩, ⟨3, false⟩, ⟨2, false⟩], inits := [0, 0, 5, 1], resetLess := [false, false, false, false],
+    doms := [{ clk := 0 }, { clk := 1 }],
+    procs := [{ dom := some 0, body := .assign (.sig 2) (.op2 .add (.sig 2) (.const 1 ⟨1, false⟩)) },
+              { dom := some 1, body := .assign (.sig 3) (.sig 2) }] }
+example : (List.range 4).all (fun i => (List.range 3).all fun b =>
+    !(drivesBit exTwo (exTwo.procs.getD 0 default) i b && drivesBit exTwo (exTwo.procs.getD 1 default) i b)) = true := by decide
+example : syncPhase exTwo [0, 0, 5, 1] [1, 1, 5, 1] = [1, 1, 6, 1] := by decide   -- s3 := s2 reads the pre-commit 5 → 5 % 4 = 1
+example : exTwo.procs.foldl (fun acc p => if fires exTwo [0, 0, 5, 1] [1, 1, 5, 1] p then
+    applyWrites exTwo.ctx [1, 1, 5, 1] (stmtWrites exTwo.ctx [1, 1, 5, 1] p.body) acc else acc) [1, 1, 5, 1] = [1, 1, 6, 1] := by decide
 
 end Amaranth.C03
